@@ -1,4 +1,5 @@
 // Unit `range`: src/range.rs `parse` against the RFC 7233 resolver of specs/range_spec.rs (C03, C02, C13).
+#![feature(allocator_api)]
 use vstd::prelude::*;
 use std::ops::Range;
 verus! {
